@@ -223,6 +223,7 @@ func RunReaders(args []string) *rep.Report {
 			return nil
 		}
 		bcfg := *cfg
+		bcfg.HTTP = idx%3 == 1 // a third of the behaviours: the library's HTTP provider sources in front of harness servers
 		for _, st := range b.Steps {
 			bcfg.Auto = bcfg.Auto || st.Au != 0
 		}
